@@ -29,3 +29,21 @@ Definition pay_a1 : txdata := mkD 904 G1 0 [mkIn 0 202 0 20000 (Some 8)]
       [(mkOut 0 12000 None false, true); (mkOut 1 7000 (Some 8) false, true)] [].
 (* utxo_add on an address of account 1: the transaction row is filed under account 0 *)
 Definition recv_cross : op := UtxosUpdate false G0 None [mkP 8 204 0 5000 3].
+
+(* a funding transaction (301) with TWO outputs of the wallet, keys 6 and 8, spent by two different transactions *)
+Definition recv2 : op := UtxosUpdate false G0 None [mkP 6 301 0 70000 3; mkP 8 301 1 50000 3].
+Definition pay_x : txdata := mkD 911 G0 0 [mkIn 0 301 0 70000 (Some 6)] [(mkOut 0 60000 None false, true)] [].
+Definition pay_y : txdata := mkD 912 G0 0 [mkIn 0 301 1 50000 (Some 8)] [(mkOut 0 40000 None false, true)] [].
+
+(* two wallets in one database file: wallet 1 holds keys 6 and 8, wallet 2 holds keys 16 and 18 (the same addresses
+   restored under a second name get their own key rows); both register the outpoints 101:0 and 102:0 *)
+Definition recv_w2 : op := UtxosUpdate true G0 None [mkP 16 101 0 100000000 10; mkP 16 102 0 100000000 10].
+(* wallet 2 spends 101:0 *)
+Definition pay_w2 : txdata := mkD 921 G0 0 [mkIn 0 101 0 100000000 (Some 16)]
+      [(mkOut 0 60000000 None false, true); (mkOut 1 39995301 (Some 18) false, true)] [].
+Definition file_history : list dbop :=
+  [DCreate 1 G0 true; DOp 1 (NewKey 6 G0 5); DOp 1 (NewKey 8 G0 5); DOp 1 recv;
+   DCreate 2 G0 true; DOp 2 (NewKey 16 G0 5); DOp 2 (NewKey 18 G0 5); DOp 2 recv_w2;
+   DOp 2 (Select G0 1 [(101, 0)]); DOp 2 (Store true pay_w2); DOp 2 Balance].
+(* the variant of the code in which delete() does not end in a commit *)
+Definition nocommit_variant : variant := mkVar true true false true false.
